@@ -134,7 +134,9 @@ const HOSTS: &[(&str, HostKind)] = &[
     ("xn--55qx5d.test", HostKind::Dns),
     ("www.xn--55qx5d.test", HostKind::Dns),
 ];
-const SCHEMES: &[&str] = &["https", "HTTPS", "http", "ws", "wss", "ftp"];
+/// the allowed scheme in both cases, the other well-known ones, and near misses of "https": a
+/// character more or less on either side (non-special schemes: `Url::domain()` answers for them)
+const SCHEMES: &[&str] = &["https", "HTTPS", "http", "ws", "wss", "ftp", "httpsx", "https2", "https-x", "https+unix", "xhttps", "htt", "s"];
 const PORTS: &[&str] = &["", ":443", ":8443"];
 
 pub fn dict_hosts() -> Vec<String> {
